@@ -270,7 +270,9 @@ def judge_field(seed):
     tag = f"field seed={seed} shape={shape} spacing={tuple(round(s, 3) for s in spacing)} level={level:.4f} layout={layout}"
     vols = {}
     for gd in ("descent", "ascent"):
-        V, F, N, vals = marching_cubes(f, level, spacing=spacing, gradient_direction=gd)
+        # the level as a Python float, a numpy scalar of either width
+        lv = [level, np.float32(level), np.float64(level)][int(nrng.integers(0, 3))] if gd == "ascent" else level
+        V, F, N, vals = marching_cubes(f, lv, spacing=spacing, gradient_direction=gd)
         V, F = np.asarray(V, float), np.asarray(F)
         if F.ndim != 2 or F.shape[1] != 3 or F.min() < 0 or F.max() >= len(V):
             return f"{tag} {gd}: face indices out of range", 0
